@@ -355,4 +355,222 @@ pub fn run(ctx: &mut Ctx) {
             }
         }
     }
+    live_icmp(ctx);
+}
+
+// ---- the real IcmpForwarder on raw sockets (loopback), its waiter table against the Lean table model ----
+
+#[derive(Clone, Debug)]
+enum LOp {
+    /// client, id, seq, data size: an echo request to 127.0.0.1 (the kernel answers it)
+    Req(usize, u16, u16, u16),
+    /// inject an echo reply built from request k: 0 same data, 1 shorter data, 2 longer data, 3 other data, 4 other id
+    Inj(usize, u8),
+    /// inject an ICMP error of this type quoting request k
+    Err(usize, u8),
+    Adv(u64),
+    Take(usize),
+}
+
+fn icmp_with_checksum(mut p: Vec<u8>) -> Vec<u8> {
+    p[2] = 0;
+    p[3] = 0;
+    let c = verif::rfc1071_checksum(&p);
+    p[2] = (c >> 8) as u8;
+    p[3] = c as u8;
+    p
+}
+
+fn raw_icmp_socket() -> Option<i32> {
+    let fd = unsafe { libc::socket(libc::AF_INET, libc::SOCK_RAW, libc::IPPROTO_ICMP) };
+    if fd < 0 {
+        None
+    } else {
+        Some(fd)
+    }
+}
+
+fn raw_send(fd: i32, pkt: &[u8]) {
+    let addr = libc::sockaddr_in { sin_family: libc::AF_INET as u16, sin_port: 0, sin_addr: libc::in_addr { s_addr: u32::from_ne_bytes([127, 0, 0, 1]) }, sin_zero: [0; 8] };
+    unsafe {
+        libc::sendto(fd, pkt.as_ptr() as *const libc::c_void, pkt.len(), 0, &addr as *const _ as *const libc::sockaddr, std::mem::size_of::<libc::sockaddr_in>() as u32);
+    }
+}
+
+fn live_icmp(ctx: &mut Ctx) {
+    use std::time::{Duration, Instant};
+    use trusttunnel::settings::*;
+    use trusttunnel::shutdown::Shutdown;
+    use trusttunnel::verif::vicmp;
+    const T_MS: u64 = 3000;
+    const CAP: usize = 3;
+    let inj = match raw_icmp_socket() {
+        Some(fd) => fd,
+        None => {
+            ctx.stat("raw_socket_unavailable");
+            ctx.notes.push("raw ICMP sockets are not permitted here: the live waiter-table suite did not run".into());
+            return;
+        }
+    };
+    let id_base = (std::process::id() as u16).wrapping_mul(251) | 0x4000;
+    let n_hist = if ctx.thorough() { 400 } else { 60 };
+    for h in 0..n_hist {
+        // ---- generate ----
+        let n = ctx.rng.range(4, 12) as usize;
+        let mut ops: Vec<LOp> = vec![];
+        let mut reqs: Vec<usize> = vec![];
+        let mut next_seq = 0u16;
+        for _ in 0..n {
+            let r = ctx.rng.below(100);
+            if reqs.is_empty() || r < 35 {
+                let c = ctx.rng.below(2) as usize;
+                // mostly fresh (id, seq); sometimes the pair of an earlier empty-data request again (the
+                // table entry is then replaced)
+                let size = *ctx.rng.pick(&[0u16, 0, 1, 8, 56, 200]);
+                let seq = if size == 0 && next_seq > 0 && ctx.rng.chance(1, 3) { ctx.rng.below(next_seq as u64) as u16 } else {
+                    next_seq += 1;
+                    next_seq - 1
+                };
+                reqs.push(ops.len());
+                ops.push(LOp::Req(c, id_base.wrapping_add(h as u16), seq, size));
+            } else if r < 55 {
+                ops.push(LOp::Inj(*ctx.rng.pick(&reqs), ctx.rng.below(5) as u8));
+            } else if r < 65 {
+                ops.push(LOp::Err(*ctx.rng.pick(&reqs), *ctx.rng.pick(&[3u8, 11, 12])));
+            } else if r < 80 {
+                ops.push(LOp::Adv(*ctx.rng.pick(&[1u64, T_MS / 2, T_MS - 1, T_MS, T_MS + 1, 2 * T_MS])));
+            } else {
+                ops.push(LOp::Take(ctx.rng.below(2) as usize));
+            }
+        }
+        ops.push(LOp::Take(0));
+        ops.push(LOp::Take(1));
+        // ---- execute ----
+        let settings = Settings::builder()
+            .listen_address(("127.0.0.1", 1))
+            .unwrap()
+            .listen_protocols(ListenProtocolSettings { http1: Some(Http1Settings::builder().build()), http2: None, quic: None })
+            .ipv6_available(false)
+            .icmp(IcmpSettings::builder().interface_name("lo").request_timeout(Duration::from_millis(T_MS)).recv_message_queue_capacity(CAP).build().unwrap())
+            .build()
+            .unwrap();
+        let hosts = TlsHostsSettings::builder()
+            .main_hosts(vec![TlsHostInfo { hostname: "localhost".into(), cert_chain_path: FIXTURE_PEM.into(), private_key_path: FIXTURE_PEM.into(), allowed_sni: vec![] }])
+            .build()
+            .unwrap();
+        let core = trusttunnel::core::Core::new(settings, None, hosts, Shutdown::new()).unwrap();
+        let rt = tokio::runtime::Builder::new_current_thread().enable_all().start_paused(true).build().unwrap();
+        let ops2 = ops.clone();
+        let res: Result<(Vec<String>, Vec<String>), String> = rt.block_on(async {
+            let mut v = match vicmp::spawn(&core, 2) {
+                Some(Ok(v)) => v,
+                Some(Err(e)) => return Err(format!("unavailable: {}", e)),
+                None => return Err("unavailable: no forwarder".into()),
+            };
+            let spin = |ms: u64| async move {
+                let t = Instant::now();
+                while t.elapsed() < Duration::from_millis(ms) {
+                    for _ in 0..50 {
+                        tokio::task::yield_now().await;
+                    }
+                }
+            };
+            spin(3).await;
+            if let Some(e) = v.listen_ended() {
+                return Err(format!("unavailable: listen() ended: {}", e));
+            }
+            let mut toks = vec![];
+            let mut outs = vec![];
+            let mut wires: Vec<Vec<u8>> = vec![vec![]; ops2.len()];
+            for (i, op) in ops2.iter().enumerate() {
+                match op {
+                    LOp::Req(c, id, seq, size) => {
+                        let mut rec = id.to_be_bytes().to_vec();
+                        crate::c06::put_ip16(&mut rec, &"127.0.0.1".parse().unwrap());
+                        rec.extend_from_slice(&seq.to_be_bytes());
+                        rec.push(64);
+                        rec.extend_from_slice(&size.to_be_bytes());
+                        let (st, wire) = v.clients[*c].request(rec).await;
+                        if st != "sent" {
+                            return Err(format!("request not sent: {}", st));
+                        }
+                        toks.push(format!("req.{}.{}.{}.{}", c, id, seq, hex(&wire[8..])));
+                        wires[i] = wire;
+                        outs.push("-".to_string());
+                    }
+                    LOp::Inj(k, mode) => {
+                        let w = &wires[*k];
+                        let mut p = w.clone();
+                        p[0] = 0;
+                        match mode {
+                            1 => p.truncate(8 + (w.len() - 8) / 2),
+                            2 => p.extend_from_slice(b"MORE"),
+                            3 => {
+                                if p.len() > 8 {
+                                    p[8] ^= 0xff;
+                                } else {
+                                    p.push(0x77);
+                                    p[7] ^= 0x40;
+                                }
+                            }
+                            4 => p[4] ^= 0x20,
+                            _ => {}
+                        }
+                        let p = icmp_with_checksum(p);
+                        toks.push(format!("inj.{}.{}.{}", u16::from_be_bytes([p[4], p[5]]), u16::from_be_bytes([p[6], p[7]]), hex(&p[8..])));
+                        raw_send(inj, &p);
+                        outs.push("-".to_string());
+                    }
+                    LOp::Err(k, ty) => {
+                        let w = &wires[*k];
+                        let mut p = vec![*ty, 0, 0, 0, 0, 0, 0, 0];
+                        // the quoted datagram: an IPv4 header and the echo request
+                        let total = 20 + w.len();
+                        p.extend_from_slice(&[0x45, 0, (total >> 8) as u8, total as u8, 0, 0, 0, 0, 64, 1, 0, 0, 127, 0, 0, 1, 127, 0, 0, 1]);
+                        p.extend_from_slice(w);
+                        let p = icmp_with_checksum(p);
+                        toks.push(format!("err.{}.{}.{}.{}", ty, u16::from_be_bytes([w[4], w[5]]), u16::from_be_bytes([w[6], w[7]]), hex(&w[8..])));
+                        raw_send(inj, &p);
+                        outs.push("-".to_string());
+                    }
+                    LOp::Adv(ms) => {
+                        tokio::time::advance(Duration::from_millis(*ms)).await;
+                        toks.push(format!("adv.{}", ms));
+                        outs.push("-".to_string());
+                    }
+                    LOp::Take(c) => {
+                        toks.push(format!("take.{}", c));
+                        spin(2).await;
+                        let d = v.clients[*c].take();
+                        let items: Vec<String> = d
+                            .iter()
+                            .map(|x| {
+                                let (id, seq) = x.encoded.as_ref().map(|e| (u16::from_be_bytes([e[0], e[1]]), u16::from_be_bytes([e[20], e[21]]))).unwrap_or((0, 0));
+                                format!("{}/{}/{}/{}", x.type_id, x.code, id, seq)
+                            })
+                            .collect();
+                        outs.push(if items.is_empty() { "-".to_string() } else { items.join(",") });
+                        continue;
+                    }
+                }
+                spin(2).await;
+            }
+            Ok((toks, outs))
+        });
+        match res {
+            Ok((toks, outs)) => {
+                ctx.emit(&format!("c11 table T={} cap={} ops={}", T_MS, CAP, toks.join(";")), &outs.join(" | "));
+                ctx.stat("live_waiter_histories");
+            }
+            Err(e) if e.starts_with("unavailable") => {
+                ctx.stat("raw_socket_unavailable");
+                ctx.notes.push(format!("live ICMP suite skipped: {}", e));
+                break;
+            }
+            Err(e) => ctx.oracle_failure("live_icmp", &e),
+        }
+    }
+    unsafe {
+        libc::close(inj);
+    }
 }
